@@ -91,7 +91,7 @@ _POOLS = {
     'int64': ([0, 1, -1, 12, -40, 3, 7, 100, 2 ** 31, 2 ** 40, 5, -2], []),
     'uint8': ([0, 1, 255, 250, 3, 128, 2, 200], []),
     'uint64': ([0, 1, 9, 77, 2 ** 40, 3, 2], []),
-    'float16': ([0.0, 1.0, -1.0, 1.5, -2.25, 0.5, 3.0, 100.0], [float('nan')]),
+    'float16': ([0.0, 1.0, -1.0, 1.5, -2.25, 0.5, 3.0, 2.0], [float('nan')]),
     'float32': ([0.0, 1.0, -1.0, 1.5, -2.25, 0.5, 3.0, 1024.0, float('-inf')], [float('nan')]),
     'float64': ([0.0, -0.0, 1.0, -1.0, 1.5, -2.25, 1e10, -1e-10, 3.0, 0.1, 100.0, float('inf'), float('-inf'), 7.0, 2.0], [float('nan')]),
     'complex128': ([0j, 1 + 2j, -1.5j, 3 + 0j, complex(1, -1), 2 + 0j], [complex(float('nan'), 0)]),
@@ -156,13 +156,23 @@ _STRATEGIES = ['homog_small', 'homog_small', 'homog', 'numeric', 'numeric', 'rea
                'small_mix', 'any']
 
 
-def _tame_prod(v):
-    if isinstance(v, int) and not isinstance(v, bool) and abs(v) > 2 ** 31:
-        return v % 97
-    return v
+def _tame_prod(cells, axis, rng):
+    """keep the exact product of the integer cells of every line within int64 (NumPy's wrap-around is not the subject)"""
+    nr = len(cells)
+    nc = len(cells[0]) if nr else 0
+    lines = [[(i, j) for i in range(nr)] for j in range(nc)] if axis == 0 else [[(i, j) for j in range(nc)] for i in range(nr)]
+    for line in lines:
+        acc = 1
+        for i, j in line:
+            v = cells[i][j]
+            if isinstance(v, int) and not isinstance(v, bool):
+                if acc * max(abs(v), 1) >= 2 ** 62:
+                    v = cells[i][j] = rng.choice([0, 1, 2, 3]) if v >= 0 else rng.choice([-1, -2, -3])
+                acc *= max(abs(v), 1)
+    return cells
 
 
-def _gen_spec(rng, fn, nr=None, nc=None):
+def _gen_spec(rng, fn, axis, nr=None, nc=None):
     strategy = rng.choice(_STRATEGIES)
     if nr is None:
         nr = rng.choice([0, 1, 1, 2, 2, 3, 3, 4, 5, 6])
@@ -176,7 +186,7 @@ def _gen_spec(rng, fn, nr=None, nc=None):
     big = rng.random() < 0.08 and fn not in ('prod', 'cumprod')
     cells = [[_element(dts[j], rng, p_missing, big) for j in range(nc)] for _ in range(nr)]
     if fn in ('prod', 'cumprod'):
-        cells = [[_tame_prod(v) for v in row] for row in cells]
+        cells = _tame_prod(cells, axis, rng)
     return F.FrameSpec(rows, cols, rk, ck, dts, cells, None), strategy
 
 
@@ -205,7 +215,7 @@ def generate(ctx):
             nr = 1
         elif r < 0.17:
             nc = 0
-        spec, strategy = _gen_spec(rng, op[0], nr, nc)
+        spec, strategy = _gen_spec(rng, op[0], op[1], nr, nc)
         yield {'spec': spec, 'op': op, 'layouts': _pick_layouts(spec.dtypes, rng, limit), 'strategy': strategy}
 
 
@@ -347,6 +357,8 @@ def _eq(e, g, rel, abs_):
     ce, cg = cs(e), cs(g)
     if ce == cg:
         return True
+    if _is_missing(e) and _is_missing(g) and not isinstance(e, (complex, np.complexfloating)):
+        return True   # NaN / NaT / None: one missing marker presented in the result's dtype
     ke, kg = ce[0], cg[0]
     if ke == 'bool' or kg == 'bool':
         if ke == 'int' and kg == 'bool':
@@ -411,7 +423,7 @@ def _model(arr, labels, op):
         return ('val', r)
     if kind == 'U':
         if fn == 'sum':
-            return ('val', ''.join(elems))
+            return ('val', ''.join(elems)) if elems else ('free',)   # the empty sum of strings: statement silent ('' or 0)
         if fn in ('min', 'max'):
             if not elems:
                 return ('exc',)
@@ -461,11 +473,13 @@ def _model(arr, labels, op):
 # --------------------------------------------------------------------------------------
 
 class _Line:
-    __slots__ = ('arr', 'kind', 'numeric_obj', 'in_domain', 'missing', 'mag', 'ref', 'model', 'big_int', 'holds_bool')
+    __slots__ = ('arr', 'kind', 'numeric_obj', 'in_domain', 'kind_domain', 'missing', 'mag', 'ref', 'model', 'big_int', 'holds_bool',
+                 'degenerate', 'expect', 'ref_bad')
 
 
-def _lines(spec, ref_frame, op):
-    """The isolated lines (1-D Series) of the reference frame along the reduced axis."""
+def _lines(spec, ref_frame, op, n_line):
+    """The isolated lines (1-D Series) along the reduced axis, with the outcome of the library's 1-D path (`ref`),
+    the model's verdict (`model`) and the outcome the frame is judged against (`expect`)."""
     import static_frame as sf
     fn, axis, skipna, ddof = op
     nr, nc = spec.shape
@@ -482,6 +496,7 @@ def _lines(spec, ref_frame, op):
         ln.arr = s.values
         ln.kind, ln.numeric_obj = _line_kind(ln.arr)
         ln.in_domain = _in_domain(ln.kind, ln.numeric_obj, fn)
+        ln.kind_domain = ln.in_domain or _kind_domain(ln.kind, ln.numeric_obj, fn)
         ln.missing = _missing_class(ln.arr)
         ln.mag = _magnitude(ln.arr)
         ln.big_int = any(isinstance(v, (int, np.integer)) and not isinstance(v, (bool, np.bool_)) and abs(int(v)) > 2 ** 53
@@ -494,7 +509,23 @@ def _lines(spec, ref_frame, op):
             ln.ref = ('arr', list(r.values), r.values.dtype)
         else:
             ln.ref = ('val', r)
-        ln.model = _model(ln.arr, labels, op) if ln.in_domain else None
+        ln.degenerate = False
+        if fn in ('std', 'var'):
+            elems = list(ln.arr) if ln.kind in 'OMm' else ln.arr.tolist()
+            n_eff = sum(1 for v in elems if not _is_missing(v)) if skipna else len(elems)
+            ln.degenerate = n_eff - ddof <= 0   # division by a non-positive count: NumPy answers nan or inf by input dtype
+        ln.model = _model(ln.arr, labels, op) if ln.in_domain and not ln.degenerate else None
+        ln.expect, ln.ref_bad = ln.ref, None
+        if ln.model is not None:
+            rel, abs_ = _tolerance(fn, n_line, ln.mag, _eps(ln.ref[1] if ln.ref[0] == 'val' else None))
+            ln.ref_bad = _against_model(ln.ref, ln.model, rel, abs_)
+            if ln.ref_bad:
+                # the library's own 1-D path violates the statement (reported once per case); judge the frame by the model
+                m = ln.model
+                ln.expect = {'val': lambda: ('val', m[1]), 'arr': lambda: ('arr', list(m[1]), np.dtype('float64')),
+                             'exc': lambda: ('exc', '*'), 'miss_or_exc': lambda: ('miss_or_exc',)}[m[0]]()
+            elif ln.model[0] == 'miss_or_exc':
+                ln.expect = ('miss_or_exc',)
         out.append(ln)
     return out, labels
 
@@ -507,7 +538,7 @@ def _block_of(lay, j):
 
 
 def _fits(v, dtype):
-    """can the reference result be held by `dtype` (the out buffer's dtype)?  A property of the input."""
+    """can the expected result be held by `dtype` (the out buffer's dtype)?  A property of the input."""
     try:
         if dtype.kind in 'iu':
             if isinstance(v, (bool, np.bool_)):
@@ -532,28 +563,37 @@ def _fits(v, dtype):
 def _base_klass(case, spec, lay, row_dtype):
     fn, axis, skipna, ddof = case['op']
     nr, nc = spec.shape
-    k = {'fn': fn, 'axis': axis, 'skipna': skipna, 'ddof': ddof,
-         'layout': 'unified' if len(lay) <= 1 else 'multi',
-         'nrows': str(nr) if nr < 2 else '2+', 'ncols': str(nc) if nc < 2 else '2+',
-         'row_kind': row_dtype.kind if row_dtype is not None else None,
-         'row_dtype': str(row_dtype) if row_dtype is not None else None,
-         'kinds': ''.join(sorted({np.dtype(d).kind for d in spec.dtypes})),
-         'has_2d_block': any(t for _, _, t in lay), 'has_width1_block': any(b - a == 1 for a, b, _ in lay),
-         'index_kind': spec.row_kind if axis == 0 else spec.col_kind,
-         'other_index_kind': spec.col_kind if axis == 0 else spec.row_kind}
-    return k
+    return {'fn': fn, 'axis': axis, 'skipna': skipna, 'ddof': ddof,
+            'layout': 'unified' if len(lay) <= 1 else 'multi',
+            'nrows': str(nr) if nr < 2 else '2+', 'ncols': str(nc) if nc < 2 else '2+',
+            'row_kind': row_dtype.kind if row_dtype is not None else None,
+            'row_dtype': str(row_dtype) if row_dtype is not None else None,
+            'kinds': ''.join(sorted({np.dtype(d).kind for d in spec.dtypes})),
+            'has_2d_block': any(t for _, _, t in lay), 'has_width1_block': any(b - a == 1 for a, b, _ in lay),
+            'index_kind': spec.row_kind if axis == 0 else spec.col_kind,
+            'other_index_kind': spec.col_kind if axis == 0 else spec.row_kind}
 
 
 def _line_klass(base, ln, lay, j, axis, row_dtype):
     k = dict(base)
     k.update(line_kind=ln.kind, line_dtype=str(ln.arr.dtype), line_missing=ln.missing, in_domain=ln.in_domain,
-             big_int=ln.big_int, holds_bool=ln.holds_bool)
+             big_int=ln.big_int, holds_bool=ln.holds_bool, series_path_ok=not ln.ref_bad)
     if axis == 0:
         k['block'] = _block_of(lay, j)
-    if ln.ref[0] == 'val' and row_dtype is not None:
-        k['ref_fits_row_dtype'] = _fits(ln.ref[1], row_dtype)
-    elif ln.ref[0] == 'arr' and row_dtype is not None:
-        k['ref_fits_row_dtype'] = all(_fits(v, row_dtype) for v in ln.ref[1])
+    if ln.expect[0] == 'val' and row_dtype is not None:
+        k['ref_fits_row_dtype'] = _fits(ln.expect[1], row_dtype)
+    elif ln.expect[0] == 'arr' and row_dtype is not None:
+        k['ref_fits_row_dtype'] = all(_fits(v, row_dtype) for v in ln.expect[1])
+    return k
+
+
+def _frame_klass(base, lines, row_dtype, full, **extra):
+    k = dict(base, in_domain=full,
+             line_kinds=''.join(sorted({ln.kind for ln in lines})),
+             lines_missing=_agg_missing(lines),
+             lines_hold_bool=any(ln.holds_bool for ln in lines),
+             any_ref_unfit=any(ln.expect[0] == 'val' and row_dtype is not None and _fits(ln.expect[1], row_dtype) is False for ln in lines))
+    k.update(extra)
     return k
 
 
@@ -590,20 +630,17 @@ def check(case, ctx):
     nr, nc = spec.shape
     ref_frame = F.build_frame(spec, F.layout_all_1d(spec.dtypes))
     row_dtype = _row_dtype(ref_frame)
-    lines, line_labels = _lines(spec, ref_frame, op)
     n_line = nr if axis == 0 else nc          # cells per line
+    lines, line_labels = _lines(spec, ref_frame, op, n_line)
     other = spec.cols if axis == 0 else spec.rows
     exp_labels = tuple(cs(l) for l in other)
     if lines:
         full = all(ln.in_domain for ln in lines)
+        kind_judged = all(ln.kind_domain for ln in lines)
     elif axis == 1 and row_dtype is not None:
-        full = _in_domain(row_dtype.kind, True, fn)   # no rows: the function must at least be defined for the row dtype
+        full = kind_judged = _in_domain(row_dtype.kind, True, fn)   # no rows: the function must be defined for the row dtype
     else:
-        full = True
-    if fn in FNS_ARG and n_line == 0 and lines:
-        ctx.tally('not_judged', 'arg_function_on_empty_lines(statement silent)')
-        return
-    raising = sorted({ln.ref[1] for ln in lines if ln.ref[0] == 'exc'})
+        full = kind_judged = True
 
     ctx.tally('fn', fn)
     ctx.tally('op', f'{fn}/axis{axis}/skipna={skipna}' + (f'/ddof={ddof}' if ddof is not None else ''))
@@ -612,10 +649,15 @@ def check(case, ctx):
     ctx.tally('cols', str(nc) if nc < 2 else '2+')
     ctx.tally('kinds', ''.join(sorted({np.dtype(d).kind for d in spec.dtypes})) or '-')
     ctx.tally('row_dtype', str(row_dtype))
-    ctx.tally('judged', 'full' if full else 'kind_only')
-    ctx.tally('expected_kind', 'exception:' + ','.join(raising) if raising else 'value')
+    if fn in FNS_ARG and n_line == 0:
+        ctx.tally('not_judged', 'arg_function_on_empty_lines(statement silent)')
+        return
+    ctx.tally('judged', 'full' if full else ('kind_only' if kind_judged else 'layout_independence_only'))
     for ln in lines:
         ctx.tally('line_kind', f'{ln.kind}/{ln.missing}')
+        ctx.tally('line_expectation', ln.expect[0] if ln.in_domain else 'outside_domain:' + ln.ref[0])
+        if ln.degenerate:
+            ctx.tally('not_judged', 'std/var with ddof >= count (value undefined, must be non-finite)')
     ctx.sample({'frame': spec.brief(), 'op': list(op), 'layouts': [F.layout_name(l) for l in case['layouts']]})
 
     seen = set()
@@ -627,19 +669,23 @@ def check(case, ctx):
         seen.add(key)
         ctx.violation(what, detail=detail, klass=klass)
 
-    # ---- the two references must agree with each other (Series path vs model), once per case
+    # ---- reference (1) against reference (2): the Series path itself must satisfy the statement
     for j, ln in enumerate(lines):
         if ln.model is None:
             continue
-        rel, abs_ = _tolerance(fn, n_line, ln.mag, _eps(ln.ref[1] if ln.ref[0] == 'val' else None))
-        bad = _against_model(ln.ref, ln.model, rel, abs_)
         ctx.tally('model', ln.model[0])
-        if bad:
+        if ln.ref_bad:
             k = _line_klass(_base_klass(case, spec, [], row_dtype), ln, [], j, axis, None)
-            k['layout'] = 'series'
-            k['model_expects'] = ln.model[0]
+            k.update(layout='series', model_expects=ln.model[0])
+            for key in ('row_kind', 'row_dtype', 'kinds', 'has_2d_block', 'has_width1_block', 'other_index_kind', 'block', 'ncols', 'nrows'):
+                k.pop(key, None)
+            k['line_len'] = str(n_line) if n_line < 2 else '2+'
             violate('series_path_differs_from_model', k, line=j, line_values=canon.brief(canon.arr_cells(ln.arr), 300),
-                    series_result=_show(ln.ref), model=_show(ln.model), reason=bad)
+                    series_result=_show(ln.ref), model=_show(ln.model), reason=ln.ref_bad)
+
+    raising = sorted({ln.expect[1] for ln in lines if ln.expect[0] == 'exc'})
+    may_raise = bool(raising) or any(ln.expect[0] in ('miss_or_exc', 'unjudged') for ln in lines)
+    ctx.tally('expected_kind', ('exception:' + ','.join(raising)) if raising else ('value_or_rejection' if may_raise else 'value'))
 
     kinds_seen = {}
     for lay in case['layouts']:
@@ -666,21 +712,15 @@ def check(case, ctx):
 
         if st == 'exc':
             ename = type(res).__name__
-            if not raising and not full and not (lines and all(ln.in_domain or _kind_domain(ln.kind, ln.numeric_obj, fn) for ln in lines)):
+            if not kind_judged:
                 ctx.tally('not_judged', 'outside_domain:frame_raises')
-            elif not raising:
-                k = dict(base, exception=ename, in_domain=full,
-                         line_kinds=''.join(sorted({ln.kind for ln in lines})),
-                         lines_missing=_agg_missing(lines),
-                         lines_hold_bool=any(ln.holds_bool for ln in lines),
-                         any_ref_unfit=any(ln.ref[0] == 'val' and row_dtype is not None and _fits(ln.ref[1], row_dtype) is False for ln in lines))
-                violate('frame_raised_but_lines_reduce', k, layout=F.layout_name(lay), exception=ename, message=str(res)[:300],
-                        lines=[_show(ln.ref) for ln in lines][:8])
-            elif full and ename not in raising:
-                k = dict(base, exception=ename, line_exceptions=','.join(raising), lines_missing=_agg_missing(lines),
-                         line_kinds=''.join(sorted({ln.kind for ln in lines})))
-                violate('exception_class_mismatch', k, layout=F.layout_name(lay), exception=ename, message=str(res)[:300],
-                        line_exceptions=raising)
+            elif not may_raise:
+                violate('frame_raised_but_lines_reduce', _frame_klass(base, lines, row_dtype, full, exception=ename),
+                        layout=F.layout_name(lay), exception=ename, message=str(res)[:300], lines=[_show(ln.expect) for ln in lines][:8])
+            elif full and raising and '*' not in raising and ename not in raising \
+                    and not any(ln.expect[0] in ('miss_or_exc', 'unjudged') for ln in lines):
+                violate('exception_class_mismatch', _frame_klass(base, lines, row_dtype, full, exception=ename, line_exceptions=','.join(raising)),
+                        layout=F.layout_name(lay), exception=ename, message=str(res)[:300], line_exceptions=raising)
             else:
                 ctx.tally('expected_errors', ename)
             continue
@@ -688,11 +728,11 @@ def check(case, ctx):
         # the frame returned
         if raising:
             if full:
-                j = next(i for i, ln in enumerate(lines) if ln.ref[0] == 'exc')
+                j = next(i for i, ln in enumerate(lines) if ln.expect[0] == 'exc')
                 k = _line_klass(base, lines[j], lay, j, axis, row_dtype)
-                k['line_exception'] = lines[j].ref[1]
+                k['line_exception'] = lines[j].expect[1]
                 violate('frame_returned_but_line_raises', k, layout=F.layout_name(lay), line=j,
-                        line_exception=lines[j].ref[1], got=canon.brief(canon.snap(res), 500))
+                        line_exception=lines[j].expect[1], got=canon.brief(canon.snap(res), 500))
             else:
                 ctx.tally('not_judged', 'outside_domain:frame_value_where_line_raises')
             continue
@@ -702,7 +742,7 @@ def check(case, ctx):
             _judge_series(ctx, case, spec, lay, base, res, lines, exp_labels, full, violate, row_dtype, skip_cols, n_line)
 
     if not full and len({v.split(':')[0] for v in kinds_seen.values()}) > 1:
-        k = dict(_base_klass(case, spec, [], row_dtype), in_domain=False, layout='across')
+        k = _frame_klass(_base_klass(case, spec, [], row_dtype), lines, row_dtype, full, layout='across')
         violate('layout_dependent_outcome_kind', k, outcomes=kinds_seen)
 
 
@@ -793,17 +833,28 @@ def _judge_series(ctx, case, spec, lay, base, res, lines, exp_labels, full, viol
             ctx.tally('not_judged', 'uninitialised_cell_value')
             continue
         g = got[j]
-        rel, abs_ = _tolerance(fn, n_line, ln.mag, _eps(ln.ref[1], vals))
-        if not _eq(ln.ref[1], g, rel, abs_):
+        e = ln.expect
+        if e[0] == 'unjudged':
+            continue
+        if e[0] == 'miss_or_exc':
+            if not _is_missing(g):
+                violate('missing_treated_as_number', _line_klass(base, ln, lay, j, axis, row_dtype), layout=F.layout_name(lay), line=j,
+                        line_values=canon.brief(canon.arr_cells(ln.arr), 300), got=canon.brief(cs(g), 200))
+            else:
+                ctx.tally('cells_agreed', ln.kind)
+            continue
+        rel, abs_ = _tolerance(fn, n_line, ln.mag, _eps(e[1], vals))
+        if ln.degenerate:
+            ok = isinstance(g, (float, np.floating)) and not math.isfinite(g)
+        else:
+            ok = _eq(e[1], g, rel, abs_)
+        if not ok:
             k = _line_klass(base, ln, lay, j, axis, row_dtype)
             k['got_is_array'] = isinstance(g, np.ndarray)
             violate('cell_mismatch', k, layout=F.layout_name(lay), line=j, line_values=canon.brief(canon.arr_cells(ln.arr), 300),
-                    expected=cs(ln.ref[1]), got=canon.brief(cs(g), 300), result_dtype=str(vals.dtype))
-            continue
-        ctx.tally('cells_agreed', ln.kind)
-        if ln.model is not None and ln.model[0] == 'miss_or_exc' and not _is_missing(g):
-            k = _line_klass(base, ln, lay, j, axis, row_dtype)
-            violate('missing_treated_as_number', k, layout=F.layout_name(lay), line=j, got=cs(g))
+                    expected=cs(e[1]), got=canon.brief(cs(g), 300), result_dtype=str(vals.dtype))
+        else:
+            ctx.tally('cells_agreed', ln.kind)
 
 
 def _judge_cum(ctx, case, spec, lay, base, res, lines, exp_labels, full, violate, row_dtype):
@@ -823,13 +874,16 @@ def _judge_cum(ctx, case, spec, lay, base, res, lines, exp_labels, full, violate
         return
     v = res.values
     for j, ln in enumerate(lines):
+        e = ln.expect
+        if e[0] != 'arr':
+            continue
         g = canon.arr_values(v[:, j] if axis == 0 else v[j]) if v.ndim == 2 else []
-        rel, abs_ = _tolerance(fn, len(ln.arr), ln.mag, _eps(v, np.empty(0, ln.ref[2])))
-        if len(g) != len(ln.ref[1]) or not all(_eq(e, x, rel, abs_) for e, x in zip(ln.ref[1], g)):
+        rel, abs_ = _tolerance(fn, len(ln.arr), ln.mag, _eps(v, np.empty(0, e[2])))
+        if len(g) != len(e[1]) or not all(_eq(x, y, rel, abs_) for x, y in zip(e[1], g)):
             k = _line_klass(base, ln, lay, j, axis, row_dtype)
             k['values_kind'] = v.dtype.kind
             violate('cell_mismatch', k, layout=F.layout_name(lay), line=j, line_values=canon.brief(canon.arr_cells(ln.arr), 300),
-                    expected=canon.brief([cs(e) for e in ln.ref[1]], 300), got=canon.brief([cs(x) for x in g], 300),
+                    expected=canon.brief([cs(x) for x in e[1]], 300), got=canon.brief([cs(x) for x in g], 300),
                     result_dtype=str(v.dtype))
         else:
             ctx.tally('cells_agreed', ln.kind)
